@@ -141,6 +141,10 @@ fn classes(sh: &Shader, opts: &Opts, stats: &mut Stats) {
     stats.class(&format!("repr_{:?}", opts.repr));
     for si in expect::emitted_structs(sh) {
         for m in &sh.structs[si].members {
+            fn via_alias(t: &Ty, sh: &Shader) -> bool {
+                sh.aliases.iter().any(|a| &a.ty == t) || matches!(t, Ty::A(e, _) | Ty::RA(e) if via_alias(e, sh))
+            }
+            stats.class_if(via_alias(&m.ty, sh), "member_type_via_alias");
             match &m.ty {
                 Ty::A(e, _) => match **e {
                     Ty::V(..) => stats.class("array_of_vector"),
